@@ -1427,6 +1427,165 @@ func byteSliceConst(w *World, v ssa.Value, d int) (string, bool) {
 	return "", false
 }
 
+// stringTableElems: v is an element read, in a loop that covers every index, of a package-level
+// array / slice variable initialised once with constant strings (a table); returns the strings.
+func stringTableElems(w *World, v ssa.Value) ([]string, bool) {
+	var g *ssa.Global
+	var sliceOf ssa.Value
+	var index ssa.Value
+	if ix, isIx := v.(*ssa.Index); isIx {
+		// element of a copy of an array variable (range over an array value)
+		if u, ok := ix.X.(*ssa.UnOp); ok && u.Op == token.MUL {
+			if gg, isG := u.X.(*ssa.Global); isG {
+				g, index = gg, ix.Index
+			}
+		}
+	} else if ld, ok := v.(*ssa.UnOp); ok && ld.Op == token.MUL {
+		if ia, ok := ld.X.(*ssa.IndexAddr); ok {
+			index = ia.Index
+			switch b := ia.X.(type) {
+			case *ssa.Global:
+				g = b
+			case *ssa.UnOp:
+				if gg, isG := b.X.(*ssa.Global); isG && b.Op == token.MUL {
+					g = gg
+					sliceOf = b
+				}
+			}
+		}
+	}
+	if g == nil {
+		return nil, false
+	}
+	// written only by the package initialiser
+	for _, fn := range w.ModuleFuncs() {
+		if fn.Name() == "init" {
+			continue
+		}
+		written := false
+		eachInstr(fn, func(in ssa.Instruction) {
+			switch x := in.(type) {
+			case *ssa.Store:
+				if x.Addr == ssa.Value(g) {
+					written = true
+				}
+				if ia2, ok := x.Addr.(*ssa.IndexAddr); ok {
+					if ia2.X == ssa.Value(g) {
+						written = true
+					}
+					if u, ok := ia2.X.(*ssa.UnOp); ok && u.X == ssa.Value(g) {
+						written = true
+					}
+				}
+			}
+		})
+		if written {
+			return nil, false
+		}
+	}
+	// the loop covers the table
+	var ph *ssa.Phi
+	if p, ok := index.(*ssa.Phi); ok {
+		ph = p
+	} else if b := asBinOp(index, token.ADD); b != nil {
+		ph, _ = b.X.(*ssa.Phi)
+	}
+	if ph == nil {
+		return nil, false
+	}
+	covers := false
+	if sliceOf != nil {
+		covers = loopCoversSlice(ph, sliceOf)
+	} else if n, ok := arrayLen(derefType(g.Type())); ok {
+		// range over an array: index from -1/0 in steps of one, compared with the constant length
+		for _, cand := range []ssa.Value{ph} {
+			for _, e := range ph.Edges {
+				if b := asBinOp(e, token.ADD); b != nil && b.X == ssa.Value(ph) {
+					for _, ref := range referrers(b) {
+						if c, ok := ref.(*ssa.BinOp); ok && c.Op == token.LSS && c.X == ssa.Value(b) {
+							if k, isC := constInt(c.Y); isC && k == n {
+								covers = true
+							}
+						}
+					}
+				}
+			}
+			for _, ref := range referrers(cand) {
+				if c, ok := ref.(*ssa.BinOp); ok && c.Op == token.LSS && c.X == cand {
+					if k, isC := constInt(c.Y); isC && k == n {
+						covers = true
+					}
+				}
+			}
+		}
+	}
+	if !covers {
+		return nil, false
+	}
+	init := g.Pkg.Func("init")
+	if init == nil {
+		return nil, false
+	}
+	// element stores in init: directly into the array global, or into the backing array of the slice stored to it
+	var base ssa.Value = g
+	if sliceOf == nil {
+		// an array built in a temporary and copied into the variable as a whole
+		eachInstr(init, func(in ssa.Instruction) {
+			if st, ok := in.(*ssa.Store); ok && st.Addr == ssa.Value(g) {
+				if u, ok := st.Val.(*ssa.UnOp); ok && u.Op == token.MUL {
+					if al, ok := u.X.(*ssa.Alloc); ok {
+						base = al
+					}
+				}
+			}
+		})
+	}
+	if sliceOf != nil {
+		base = nil
+		eachInstr(init, func(in ssa.Instruction) {
+			if st, ok := in.(*ssa.Store); ok && st.Addr == ssa.Value(g) {
+				if sl, ok := st.Val.(*ssa.Slice); ok {
+					base = sl.X
+				}
+			}
+		})
+		if base == nil {
+			return nil, false
+		}
+	}
+	vals := map[int64]string{}
+	bad := false
+	eachInstr(init, func(in ssa.Instruction) {
+		ia2, ok := in.(*ssa.IndexAddr)
+		if !ok || ia2.X != base {
+			return
+		}
+		idx, okI := constInt(ia2.Index)
+		for _, r2 := range referrers(ia2) {
+			if st, ok := r2.(*ssa.Store); ok && st.Addr == ssa.Value(ia2) {
+				sv, okS := constString(st.Val)
+				if !okI || !okS {
+					bad = true
+					return
+				}
+				vals[idx] = sv
+			}
+		}
+	})
+	if bad || len(vals) == 0 {
+		return nil, false
+	}
+	var out []string
+	for i := int64(0); i < int64(len(vals)); i++ {
+		sv, ok := vals[i]
+		if !ok {
+			return nil, false
+		}
+		out = append(out, sv)
+	}
+	return out, true
+}
+
 func globalArrayBytes(w *World, g *ssa.Global) (string, bool) {
 	init := g.Pkg.Func("init")
 	if init == nil {
